@@ -1,4 +1,5 @@
 import OjgVerif.Asm.LemmasOrder
+import OjgVerif.Asm.LemmasPrint
 import OjgVerif.Gen.AsmFacts
 /-! # C20 — assembly plans evaluate totally, deterministically and as documented
 
@@ -429,5 +430,79 @@ theorem set_through_alias :
       .call b!"set" [.path ⟨false, [.child b!"asm", .child b!"a"]⟩, .lit (.int 9)]]
     let h : Heap := [Cell.map [(b!"src", .mref 1)], Cell.map [(b!"a", .int 1)]]
     (execute envCur true 5 (some plan) (.mref 0) h).2[1]? = some (Cell.map [(b!"a", .int 9)]) := by decide
+
+/-! ## 6. print -/
+
+/-- `NewPlan(p.Simplify())` is `p` again (tree level): the Simplify form is an array that names the same
+function and compiles to the same arguments — for plans inside the model whose paths print to text that
+parses back (`pathsRoundTrip`) -/
+theorem newPlan_simplify (fuel : Nat) (xs : List Tree) (p : ArgT) (hp : newPlan fuel xs = some p)
+    (hrt : pathsRoundTrip (fuel + 1) p = true) :
+    ∃ ys, simplify (fuel + 1) p = .arr ys ∧ newPlan fuel ys = some p := by
+  have hreg : ∀ name, isModelled name = true → isRegistered name = true := by
+    intro name h; simp [isRegistered, isModelled] at h ⊢; exact Or.inl h
+  have hcf' : ∀ name ys, isRegistered name = true → callForm (.str name :: ys) = some (name, ys) := by
+    intro name ys h; simp [callForm, h]
+  have finish : ∀ (name : Bytes) (rest : List Tree), isModelled name = true → name ≠ b!"quote" →
+      pathsRoundTrip (fuel + 1) (.call name (rest.map (compileArg fuel))) = true →
+      ∃ ys, simplify (fuel + 1) (.call name (rest.map (compileArg fuel))) = .arr ys ∧
+        newPlan fuel ys = some (.call name (rest.map (compileArg fuel))) := by
+    intro name rest hm hq h
+    refine ⟨_, rfl, ?_⟩
+    simp only [List.map_map]
+    have hne : ∀ (zs : List Tree), newPlan fuel (.str name :: zs) = some (.call name (zs.map (compileArg fuel))) := by
+      intro zs
+      simp [newPlan, hcf' name zs (hreg name hm), hm, hq]
+    rw [hne]
+    simp only [List.map_map]
+    congr 2
+    apply map_congr_mem
+    intro x hx
+    simp only [pathsRoundTrip, List.all_eq_true, List.mem_map] at h
+    exact compile_simplify fuel x (h _ ⟨x, hx, rfl⟩)
+  cases xs with
+  | nil => simp [newPlan] at hp
+  | cons x r =>
+    simp only [newPlan] at hp
+    cases hcf : callForm (x :: r) with
+    | none =>
+      simp only [hcf] at hp
+      injection hp with hp
+      subst hp
+      exact finish b!"asm" (x :: r) (by decide) (by decide) hrt
+    | some nr =>
+      obtain ⟨name, rest⟩ := nr
+      simp only [hcf] at hp
+      by_cases hm : isModelled name = true
+      · simp only [hm, Bool.not_true, Bool.false_eq_true, if_false] at hp
+        by_cases hq : name = b!"quote"
+        · simp only [hq, if_true] at hp
+          injection hp with hp
+          subst hp
+          refine ⟨_, rfl, ?_⟩
+          have hid : ∀ (ys : List Tree), (List.map (simplify fuel ∘ ArgG.lit) ys) = ys := by
+            intro ys
+            induction ys with
+            | nil => rfl
+            | cons a r ih => simp [simplify, Function.comp] at ih ⊢; exact ih
+          simp only [List.map_map, hid]
+          simp [newPlan, hcf' b!"quote" rest (by decide), show isModelled b!"quote" = true by decide]
+        · simp only [hq, if_false] at hp
+          injection hp with hp
+          subst hp
+          exact finish name rest hm hq hrt
+      · simp only [hm, Bool.not_false, if_true] at hp
+        injection hp with hp
+        subst hp
+        simp [pathsRoundTrip] at hrt
+
+/-- an instance: `[[set $.asm {a: 1}] [get "$.src.l[-1]"]]` compiles (implicit `asm`), its paths round-trip,
+and its Simplify form `[asm [set $.asm {a: 1}] [get "$.src.l[-1]"]]` compiles to the same plan -/
+example :
+    let src : List Tree := [.arr [.str b!"set", .str b!"$.asm", .obj [(b!"a", .int 1)]],
+                            .arr [.str b!"get", .str b!"$.src.l[-1]"]]
+    ∃ p, newPlan 9 src = some p ∧ pathsRoundTrip 10 p = true ∧
+      simplify 10 p = .arr (.str b!"asm" :: src) := by
+  exact ⟨_, rfl, by decide, by decide⟩
 
 end OjgVerif.C20
